@@ -193,6 +193,7 @@ def write_evidence(rep, spec, exit_violations):
         'oracle_evaluations': rep.evals,
         'nontrivial_runs': rep.nontrivial_runs,
         'distinct_abstract_states': len(rep.states),
+        'distinct_abstract_states_rule': 'sha256 of the canonical model state + open-handle positions after each event; at most the first 48 per run are kept',
         'faults_fired': dict(sorted(rep.faults.items())),
         'probes': dict(sorted(rep.probes.items())),
         'runs_per_hour': int(rep.runs / wall * 3600) if wall > 0 else 0,
